@@ -2,8 +2,8 @@ package main
 
 import (
 	"fmt"
-	"strconv"
 	nurl "net/url"
+	"strconv"
 	"strings"
 
 	"golang.org/x/net/html"
